@@ -232,6 +232,9 @@ def c10_bounded(tier="quick", seed=0):
         cases = [(p, k, tl, 0) for p in REDOS for k in ((30, 1000) if tier == "quick" else (30, 1000, 10000)) for tl in (1.0, None) if not (tl is None and k > 30)]
         # every consumer and the sticky / global flags, on the short subject under a time limit
         cases += [(p, 30, 1.0, fi) for p in REDOS for fi in range(1, len(FORMS_REDOS))]
+        # ... and without any time limit: what ends the work then is the step budget of each attempt (a loaded machine lets a
+        # wall-clock limit fire first and hide what happens when the budget is exhausted)
+        cases += [(p, 24, None, fi) for p in REDOS for fi in range(1, len(FORMS_REDOS))]
         rr = pool.map(_redos_case, cases)
     out = []
     bad = [b for _, bs in rs for b in bs]
